@@ -812,6 +812,7 @@ pub fn witness(c: &OpCase) -> (Vec<F>, Vec<BigUint>) {
 pub fn arch(c: &OpCase) -> ZkStdLibArch {
     match family(c) {
         "ff" | "big" => crate::ops_ff::arch(c),
+        "ec" => crate::ops_ecc::arch(c),
         _ => ZkStdLibArch { nr_pow2range_cols: c.cols, ..ZkStdLibArch::default() },
     }
 }
@@ -820,6 +821,7 @@ pub fn arch(c: &OpCase) -> ZkStdLibArch {
 pub fn body<L: Layouter<F>>(c: &OpCase, s: &ZkStdLib, l: &mut L, w: &[Value<F>], wb: &[Value<BigUint>]) -> Result<(), Error> {
     match family(c) {
         "ff" | "big" => crate::ops_ff::body(c, s, l, w, wb),
+        "ec" => crate::ops_ecc::body(c, s, l, w, wb),
         _ => {
             for p in &native_body(c, s, l, w)? {
                 s.constrain_as_public_input(l, p)?;
@@ -852,6 +854,11 @@ pub fn judge(c: &OpCase, publics: &[Fq]) -> Judgement {
             Ok(false) => Judgement::Inadmissible,
             Err(e) => Judgement::Wrong(e),
         },
+        "ec" => match crate::ops_ecc::check(c, publics) {
+            Ok(true) => Judgement::Holds,
+            Ok(false) => Judgement::Inadmissible,
+            Err(e) => Judgement::Wrong(e),
+        },
         _ => {
             let n = c.ins.len().min(publics.len());
             let (bi, bo) = publics.split_at(n);
@@ -873,6 +880,7 @@ pub fn judge(c: &OpCase, publics: &[Fq]) -> Judgement {
 pub fn expected_admissible(c: &OpCase) -> bool {
     match family(c) {
         "ff" | "big" => crate::ops_ff::expected_admissible(c),
+        "ec" => crate::ops_ecc::expected_admissible(c),
         _ => {
             let ins: Vec<Fq> = c.ins.iter().map(|x| x.0).collect();
             native_eval(c, &ins).is_some()
@@ -889,11 +897,15 @@ pub fn all_ops() -> Vec<String> {
     let mut v: Vec<String> = NATIVE_OPS.iter().map(|s| s.to_string()).collect();
     v.extend(crate::ops_ff::ff_ops());
     v.extend(crate::ops_ff::big_ops());
+    v.extend(crate::ops_ecc::jj_ops());
+    v.extend(crate::ops_ecc::fc_ops());
     v
 }
 
 pub fn gen_case(rng: &mut Prng, op: &str) -> OpCase {
-    if op.starts_with("ff.") || op.starts_with("big.") {
+    if op.starts_with("ec.") {
+        crate::ops_ecc::gen_case(rng, op)
+    } else if op.starts_with("ff.") || op.starts_with("big.") {
         crate::ops_ff::gen_case(rng, op)
     } else {
         gen_native_case(rng, op)
